@@ -261,6 +261,7 @@ WQD = [Qd("quantized_bits", bits=4, integer=0, symmetric=1, alpha=1.0),
 BQD = [Qd("quantized_bits", bits=4, integer=0, symmetric=1), Qd("quantized_bits", bits=8, integer=3, symmetric=1, alpha=1.0),
        Qd("quantized_po2", bits=4), Qd("quantized_linear", bits=6, integer=2), None]
 AQD = [Qd("quantized_relu", bits=4, integer=1), Qd("quantized_relu", bits=4, integer=1, negative_slope=0.25),
+       Qd("quantized_relu", bits=6, integer=3, relu_upper_bound=6.0),      # is_quantized_clip stays True: the bound is ignored
        Qd("quantized_relu", bits=6, integer=2, is_quantized_clip=False, relu_upper_bound=1.5),
        Qd("quantized_relu", bits=4, integer=1, use_sigmoid=1), Qd("quantized_tanh", bits=4, symmetric=True),
        Qd("quantized_tanh", bits=5, use_real_tanh=True), Qd("quantized_sigmoid", bits=4, use_real_sigmoid=True),
@@ -271,9 +272,11 @@ AQD = [Qd("quantized_relu", bits=4, integer=1), Qd("quantized_relu", bits=4, int
        Qd("quantized_linear", bits=6, integer=2), "relu", "tanh", None]
 Q_LAYER_KINDS_IMG = ["QConv2D", "QDepthwiseConv2D", "QSeparableConv2D", "QConv2DBatchnorm", "QDepthwiseConv2DBatchnorm",
                      "QActivation", "QAdaptiveActivation", "QBatchNormalization", "QAveragePooling2D",
-                     "QGlobalAveragePooling2D", "QScaleShift", "QConv2D_mask", "Flatten"]
-Q_LAYER_KINDS_SEQ = ["QConv1D", "QSeparableConv1D", "QSimpleRNN", "QLSTM", "QGRU", "QBidirectional", "QActivation", "Flatten"]
-Q_LAYER_KINDS_VEC = ["QDense", "QDense", "QActivation", "QAdaptiveActivation", "QBatchNormalization", "QScaleShift"]
+                     "QGlobalAveragePooling2D", "QScaleShift", "QConv2D_mask", "Flatten", "StockActivation"]
+Q_LAYER_KINDS_SEQ = ["QConv1D", "QSeparableConv1D", "QSimpleRNN", "QLSTM", "QGRU", "QBidirectional", "QActivation", "Flatten",
+                     "StockActivation"]
+Q_LAYER_KINDS_VEC = ["QDense", "QDense", "QActivation", "QAdaptiveActivation", "QBatchNormalization", "QScaleShift",
+                     "StockActivation", "StockDense"]
 
 
 def q_model_spec(rnd, kinds_filter=None, min_layers=2, max_layers=5):
@@ -375,6 +378,11 @@ def q_model_spec(rnd, kinds_filter=None, min_layers=2, max_layers=5):
       add(t, "qgap", {"average_quantizer": rnd.choice([None, Qd("quantized_bits", bits=8, integer=0, symmetric=1)]),
                       "activation": rnd.choice([None, Qd("quantized_relu", bits=6, integer=2)])})
       rank = 2
+    elif t == "StockActivation":
+      # plain Keras layers inside a quantized model: identifiers Keras itself defines must keep Keras' meaning
+      add("Activation", "act", {"activation": rnd.choice(["hard_sigmoid", "hard_sigmoid", "softsign", "elu", "tanh", "sigmoid"])})
+    elif t == "StockDense":
+      add("Dense", "dense", {"units": rnd.randint(1, 4), "activation": rnd.choice(["hard_sigmoid", None, "relu"]), "use_bias": ub})
     elif t == "QScaleShift":
       add(t, "qss", {"weight_quantizer": rnd.choice([q for q in WQD if q and q["qcls"] in ("quantized_bits", "quantized_po2")]),
                      "bias_quantizer": bq, "use_bias": ub, "activation": rnd.choice([None, Qd("quantized_bits", bits=6, integer=2, symmetric=1)])})
